@@ -1,16 +1,17 @@
 PROP = dict(
     coq=["Warc/WarcHarness.vo"],
     legs=[
-        dict(driver="body", binary="zwarc", quick=600, thorough=40000, shard=50,
+        dict(driver="body", binary="zwarc", quick=1000, thorough=12000, shard=64,
              monitors=["body_drained (no error => every byte taken from the reader)",
                        "body_drained (spooled copy byte-identical iff the MIME rule selects it)",
-                       "body_closed_exactly_once", "body_error_no_spool", "body_quiet_ok"]),
-        dict(driver="discard", binary="zwarc", quick=120, thorough=4000, shard=20,
+                       "body_closed_exactly_once", "body_error_no_spool", "body_quiet_ok",
+                       "body_drained (MIME detected on exactly the first min(2048,len) bytes)"]),
+        dict(driver="discard", binary="zwarc", quick=160, thorough=2000, shard=20,
              monitors=["discard_iff (exhaustive over status x cf-mitigated shapes)", "discard_reason", "is_challenge_page"]),
-        dict(driver="warcleg", binary="zwarc", quick=22, thorough=400, shard=12, noshrink=False,
+        dict(driver="warcleg", binary="zwarc", quick=34, thorough=250, shard=12, noshrink=False,
              monitors=["accepted_stored_byte_exact_after_stop", "written_before_archived (WARC on disk at the arch.written point)",
                        "rejected_never_stored", "members_complete_and_files_finalised",
-                       "all_accepted_written_when_seed_leaves_archiver", "attempts_le"]),
+                       "all_accepted_written_when_seed_leaves_archiver", "attempts_le", "retry_rule (retry_iff: attempts follow the retry rule)"]),
     ],
     search_mult=3,
     partial="Component-level slice plus a single-process archive-to-WARC leg: the full-pipeline ordering (finish message only "
